@@ -171,10 +171,16 @@ def spec_task(case):
     orderA, orderB = list(case["orderA"]), list(case["orderB"])
     fails = []
     objA = create(alg, N)
+    objC = create(alg, N)          # constructed now, first asked only after the history (lazily drawn randomness shows here)
     A1 = {g: outcome(objA, alg, N, g) for g in orderA}
     t1 = time.time()
     herr = run_history(case["history"], objA, alg, N)
     t2 = time.time()
+    C = {g: outcome(objC, alg, N, g) for g in orderB if g != "fullgrid"}
+    for g in orderA:
+        if g in C and A1[g] != C[g]:
+            fails.append(("history", g, "an object constructed BEFORE the history and first asked AFTER it differs from the first fresh object "
+                          "(something is drawn or computed lazily in a state the history changed)"))
     objB = create(alg, N)
     B = {g: outcome(objB, alg, N, g) for g in orderB}
     for g in orderA:
@@ -289,7 +295,8 @@ def run(tier, seed):
     res = Result("C08", rule="one task per grid specification (alg, N) in a freshly forked process: fresh object A (all "
                  "getters) / seeded random history of %s operations (np.random.seed, np.random.random, other grid "
                  "constructions, getters on other grids, on the same specification and on A, FullGrid arrays, polytope "
-                 "subdivisions) / fresh object B (all getters, different order) / all getters a second time on A / fresh interpreter with another "
+                 "subdivisions) / an object C constructed before the history and first asked after it / fresh object B (all getters, different order) / "
+                 "all getters a second time on A / fresh interpreter with another "
                  "PYTHONHASHSEED; all compared bit-for-bit.  Getters: %s.  Prefix: all pairs N < M of the listed sets.  "
                  "non-trivial = specification with N >= 4 (real Voronoi objects) or a prefix pair; distinct by (alg, N) "
                  "resp. (alg, N, M)" % ("6", {k: list(v) for k, v in GETTERS.items()}),
